@@ -43,7 +43,35 @@ def make_trans(spec):
     ep = spec.get("epoch")
     ref = datetime.date(*ep) if ep else 0
     rates = spec.get("rates") or [0.0] * 7
-    return c.Transformation(spec.get("from", "A"), spec.get("to", "B"), ref, *spec["p"], *rates, tf_sd=sd)
+    p = spec["p"]
+    # representation of the parameters: numpy float64 scalars (a set built from an array) or Python ints (whole values)
+    pnum = spec.get("pnum", "float")
+    if pnum == "np64":
+        p, rates = [np.float64(v) for v in p], [np.float64(v) for v in rates]
+    elif pnum == "int":
+        p, rates = [int(v) for v in p], [int(v) if abs(v) >= 1 else v for v in rates]     # truncated: stays inside the domain
+    return c.Transformation(spec.get("from", "A"), spec.get("to", "B"), ref, *p, *rates, tf_sd=sd)
+
+
+def spec_values(spec):
+    """(p, rates) as the spec asks for them (after the representation rule of make_trans), as floats."""
+    p, rates = list(spec["p"]), list(spec.get("rates") or [0.0] * 7)
+    if spec.get("pnum") == "int":
+        p, rates = [int(v) for v in p], [int(v) if abs(v) >= 1 else v for v in rates]
+    return tuple(float(v) for v in p), tuple(float(v) for v in rates)
+
+
+def expected_params(spec, tr):
+    """Seven parameters the set must hold: from the generated spec for random sets (and the object must store exactly those:
+    a constructor that files an argument in the wrong slot is reported), from the constant itself for shipped sets."""
+    from .core import Fail
+    if "name" in spec:
+        return params_of(tr)
+    p, rates = spec_values(spec)
+    if params_of(tr) != p or rates_of(tr) != rates:
+        raise Fail("a Transformation does not hold the parameters and rates it was constructed with",
+                   expected={"p": p, "rates": rates}, observed={"p": params_of(tr), "rates": rates_of(tr)}, bucket="constructor slots")
+    return p
 
 
 def params_of(tr):
@@ -73,9 +101,16 @@ def point(lim):
     return st.one_of(box, box, surf).map(list)
 
 
+pnum_kind = st.sampled_from(["float"] * 4 + ["np64", "int"])
+
+
+_ROT = st.one_of(S.floats(-59.9, 59.9), S.floats(-59.9, 59.9), S.floats(-59.9, 59.9), S.floats(-1.0, 1.0),
+                 # up to the open end of "below one arc-minute"
+                 st.sampled_from([59.99999999994, math.nextafter(60.0, 0.0), -math.nextafter(60.0, 0.0), 59.9999, -59.99999999951, 0.0]))
+
+
 def random_p7():
-    return st.tuples(S.floats(-1000, 1000), S.floats(-1000, 1000), S.floats(-1000, 1000), S.floats(-100, 100),
-                     S.floats(-59.9, 59.9), S.floats(-59.9, 59.9), S.floats(-59.9, 59.9)).map(list)
+    return st.tuples(S.floats(-1000, 1000), S.floats(-1000, 1000), S.floats(-1000, 1000), S.floats(-100, 100), _ROT, _ROT, _ROT).map(list)
 
 
 def random_sd7():
